@@ -148,6 +148,13 @@ func Base(d *Dialect) *schema.Schema {
 		t.AddColumns(g)
 		t.AddIndexes(schema.NewIndex("idx_d_part").AddParts(part(1, dd)).AddAttrs(&sqlite.IndexPredicate{P: "d > 0"}))
 		t.AddChecks(schema.NewCheck().SetExpr("d < 100")) // unnamed check
+		// two unnamed foreign keys, as SQLite reports them: numbered in reverse declaration order.
+		r1, r2 := col("r1", d.Int(), true), col("r2", d.Int(), true)
+		u.AddColumns(r1, r2)
+		u.AddForeignKeys(
+			&schema.ForeignKey{Symbol: "0", Table: u, Columns: []*schema.Column{r2}, RefTable: p, RefColumns: []*schema.Column{pk}, OnDelete: schema.NoAction, OnUpdate: schema.NoAction},
+			&schema.ForeignKey{Symbol: "1", Table: u, Columns: []*schema.Column{r1}, RefTable: p, RefColumns: []*schema.Column{pid}, OnDelete: schema.NoAction, OnUpdate: schema.NoAction},
+		)
 	}
 	s.AddTables(p, u, t)
 	return s
@@ -558,6 +565,14 @@ func Edits(d *Dialect) []Edit {
 		)
 	case SQLite:
 		es = append(es,
+			// the last declared unnamed foreign key (ordinal 0) is dropped: a fresh inspection numbers the
+			// remaining one 0.
+			Edit{"unnamed_fk_last_declared_dropped", []string{"table:u"}, func(s *schema.Schema) {
+				u := T(s, "u")
+				dropFK(u, "0")
+				F(u, "1").Symbol = "0"
+			}, []string{"ModifyTable(u)/DropForeignKey(1)"}},
+			Edit{"unnamed_fk_first_declared_dropped", []string{"table:u"}, func(s *schema.Schema) { dropFK(T(s, "u"), "1") }, []string{"ModifyTable(u)/DropForeignKey(1)"}},
 			Edit{"without_rowid_added", []string{"tattr:rowid"}, func(s *schema.Schema) { T(s, "t").AddAttrs(&sqlite.WithoutRowID{}) }, []string{mt("AddAttr(WithoutRowID)")}},
 			Edit{"strict_added", []string{"tattr:strict"}, func(s *schema.Schema) { T(s, "t").AddAttrs(&sqlite.Strict{}) }, []string{mt("AddAttr(Strict)")}},
 			Edit{"index_predicate", []string{"idx:idx_d_part"}, func(s *schema.Schema) {
